@@ -275,8 +275,14 @@ func c25Gen(rt *rapid.T) *hist.Case {
 		case "offline":
 			c.Actions = append(c.Actions, sconn(true),
 				hist.Action{Kind: "subscribe", Client: 0, Filters: []refmqtt.Filter{{Filter: "q/#", QoS: 1}}},
-				hist.Action{Kind: pick(rt, "offline-how", []string{"disconnect", "drop"}), Client: 0},
-				hist.Action{Kind: "publish", Client: 1, Topic: "q/a", QoS: 1, MsgExpiry: interval()})
+				hist.Action{Kind: pick(rt, "offline-how", []string{"disconnect", "drop"}), Client: 0})
+			// one or two more queued messages with their own intervals, before and after q/a: creation order is
+			// not expiry order (seeded change C25-e: housekeeping that stops at the first message still alive)
+			for _, extra := range []string{"q/l", "q/a", "q/m"} {
+				if extra == "q/a" || rapid.IntRange(0, 2).Draw(rt, "extra-queued") == 0 {
+					c.Actions = append(c.Actions, hist.Action{Kind: "publish", Client: 1, Topic: extra, QoS: 1, MsgExpiry: interval()})
+				}
+			}
 			ticks("inflight")
 			c.Actions = append(c.Actions, sconn(true),
 				hist.Action{Kind: "unsubscribe", Client: 0, Filters: []refmqtt.Filter{{Filter: "q/#"}}}, hist.Action{Kind: "disconnect", Client: 0})
